@@ -42,22 +42,31 @@ type KMS struct {
 	calls    []KMSCall
 	n        int
 	Faults   map[int]bool
+	Delays   map[int]time.Duration
+	Latency  func(op string) time.Duration
 	Retained [][]byte // every slice returned by DecryptKey, kept to check that the SDK wipes it
 	counts   map[string]int
 }
 
 // NewKMS wraps inner.
 func NewKMS(inner appencryption.KeyManagementService) *KMS {
-	return &KMS{Inner: inner, Faults: map[int]bool{}, counts: map[string]int{}}
+	return &KMS{Inner: inner, Faults: map[int]bool{}, Delays: map[int]time.Duration{}, counts: map[string]int{}}
 }
 
 func (k *KMS) begin(op string) (int, bool) {
 	k.mu.Lock()
-	defer k.mu.Unlock()
 	i := k.n
 	k.n++
 	k.counts[op]++
-	return i, k.Faults[i]
+	f, d, lat := k.Faults[i], k.Delays[i], k.Latency
+	k.mu.Unlock()
+	if lat != nil && d == 0 {
+		d = lat(op)
+	}
+	if d > 0 {
+		time.Sleep(d)
+	}
+	return i, f
 }
 
 // EncryptKey implements appencryption.KeyManagementService.
@@ -153,6 +162,8 @@ type AEAD struct {
 	calls    []AEADCall
 	n        int
 	Faults   map[int]bool
+	Delays   map[int]time.Duration
+	Latency  func(op string) time.Duration
 	Retained [][]byte // every slice returned by Decrypt
 	Outputs  [][]byte // copies of every Encrypt output when KeepOutputs is set
 	KeepOutputs bool
@@ -164,15 +175,22 @@ type AEAD struct {
 
 // NewAEAD wraps inner.
 func NewAEAD(inner appencryption.AEAD) *AEAD {
-	return &AEAD{Inner: inner, Faults: map[int]bool{}, pairs: map[[44]byte]int{}}
+	return &AEAD{Inner: inner, Faults: map[int]bool{}, Delays: map[int]time.Duration{}, pairs: map[[44]byte]int{}}
 }
 
 func (a *AEAD) begin() (int, bool) {
 	a.mu.Lock()
-	defer a.mu.Unlock()
 	i := a.n
 	a.n++
-	return i, a.Faults[i]
+	f, d, lat := a.Faults[i], a.Delays[i], a.Latency
+	a.mu.Unlock()
+	if lat != nil && d == 0 {
+		d = lat("aead")
+	}
+	if d > 0 {
+		time.Sleep(d)
+	}
+	return i, f
 }
 
 // Encrypt implements appencryption.AEAD.
